@@ -181,17 +181,22 @@ func (c *FileCache[MetadataT]) Cache(key CacheKey, data io.Reader, expires time.
 	defer lock.Unlock()
 
 	fileName := filepath.Join(c.rootDir.Path, key.Hex)
-	file, err := os.Create(fileName)
+
+	// Write to a temporary file and rename it into place afterwards: a failed transfer
+	// must not damage an existing entry, and readers that already opened the existing
+	// entry keep reading its old content (the rename replaces the name, not the open file).
+	file, err := os.CreateTemp(c.rootDir.Path, key.Hex+".tmp-*")
 	if err != nil {
 		metrics.Global.Cache.CacheErrors.Increment()
 		slog.Error("Failed to create cache file", "key", key.Hex, "error", err)
 		return nil, fmt.Errorf("%w: failed to create cache file '%s'", ErrCacheFileCreate, fileName)
 	}
+	tmpName := file.Name()
 
 	fileSize, err := io.Copy(file, data)
 	if err != nil {
 		file.Close()
-		os.Remove(fileName)
+		os.Remove(tmpName)
 		metrics.Global.Cache.CacheErrors.Increment()
 		slog.Error("Failed to write cache file", "key", key.Hex, "error", err)
 		return nil, fmt.Errorf("%w: failed to write cache file '%s'", ErrCacheFileWrite, fileName)
@@ -199,10 +204,18 @@ func (c *FileCache[MetadataT]) Cache(key CacheKey, data io.Reader, expires time.
 
 	if fileSize == 0 {
 		file.Close()
-		os.Remove(fileName)
+		os.Remove(tmpName)
 		metrics.Global.Cache.CacheErrors.Increment()
 		slog.Error("Cache file is empty", "key", key.Hex, "file_size", fileSize)
 		return nil, fmt.Errorf("%w: wrote 0 bytes to cache file '%s'", ErrCacheFileEmpty, fileName)
+	}
+
+	if err := os.Rename(tmpName, fileName); err != nil {
+		file.Close()
+		os.Remove(tmpName)
+		metrics.Global.Cache.CacheErrors.Increment()
+		slog.Error("Failed to move cache file into place", "key", key.Hex, "error", err)
+		return nil, fmt.Errorf("%w: failed to move cache file '%s' into place", ErrCacheFileCreate, fileName)
 	}
 
 	meta := &EntryMetadata[MetadataT]{
@@ -214,9 +227,15 @@ func (c *FileCache[MetadataT]) Cache(key CacheKey, data io.Reader, expires time.
 	}
 
 	c.mu.Lock()
+	replaced, existed := c.entriesMetadata[key]
 	c.entriesMetadata[key] = meta
 	c.mu.Unlock()
 
+	if existed {
+		// Overwrite of an existing key: the replaced file is gone, it no longer counts
+		decrementCacheEntries()
+		decrementCacheSize(&c.byteSize, replaced.Size)
+	}
 	incrementCacheEntries()
 	addCacheSize(&c.byteSize, fileSize)
 
